@@ -54,6 +54,23 @@ func (s DevState) Delete(p Path) int {
 
 func (s DevState) Set(l *Leaf) { s[l.Path.String()] = l }
 
+// WithImpliedPresence returns a copy in which every presence container that has a leaf below it carries its
+// marker: on a device a presence container exists as soon as any of its descendants exists.
+func (s DevState) WithImpliedPresence(si *SchemaInfo) DevState {
+	o := s.Clone()
+	for _, l := range s {
+		for i := 1; i < len(l.Path); i++ {
+			pp := l.Path[:i]
+			if n := si.Node(pp); n != nil && n.Kind == KContainer && n.Presence {
+				if _, ok := o[pp.String()]; !ok {
+					o[pp.String()] = &Leaf{Path: pp.Clone(), Abs: "empty"}
+				}
+			}
+		}
+	}
+	return o
+}
+
 // Render gives a canonical text form (sorted) for logs and equality.
 func (s DevState) Render() []string {
 	out := make([]string, 0, len(s))
